@@ -109,10 +109,10 @@ def monitor_nested(sc, res):
     meta, fails = sc["c17n"], []
     for i, st in enumerate(res["steps"]):
         op, io_ = st["op"], st["impl"]
-        if io_ is None:
+        if io_ is None or i in meta.get("skip", []):
             continue
         if io_["exc"] is not None or io_["exit"] != 0:
-            fails.append({"what": f"{op['op']} at {op.get('at', '')!r} exits {io_['exit']} {io_['exc'] or ''} (rename {meta['old']!r} -> {meta['new']!r} inside the nested history {meta['hist']!r}, create -dr {res['steps'][meta['dr_index']]['op']['h']}): missing {io_['missing']} new {io_['new']}", "replay": sc})
+            fails.append({"what": f"{op['op']} at {op.get('at', '')!r} exits {io_['exit']} {io_['exc'] or ''} (rename {meta['old']!r} -> {meta['new']!r} in the history at {meta['hist']!r}, create -dr {res['steps'][meta['dr_index']]['op']['h']}): missing {io_['missing']} new {io_['new']}", "replay": sc})
         if i == meta["dr_index"] and io_["exc"] is None:
             wr = M.written_by_hist(io_, "")
             recs = {r["path"]: r for name, m, _ in wr.get(meta["hist"], []) for r in m["records"]}
@@ -120,6 +120,24 @@ def monitor_nested(sc, res):
             if r is None or r.get("prev") != meta["old"]:
                 fails.append({"what": f"create -dr: the nested history's record of {meta['new']!r} has previousPath {None if r is None else r.get('prev')!r}, the file was {meta['old']!r} (relative to that history) before", "replay": sc})
     return fails
+
+
+def late_dr_scenarios():
+    """the renamed file reaches the -dr run after a run that did NOT detect renames: a plain create (which reports the
+    old name missing and records the new one), or a create -sf of the new name.  The recorded file was renamed, its
+    content is the same: create -dr records the new path with the former one and reports nothing missing."""
+    out = []
+    for between in ("plain", "sf"):
+        for fm in (["md5"], ["sha1"]):
+            tree = {"a.txt": "content of a", "keep.txt": "k", "s/c.txt": "content of c"}
+            mid = {"op": "create", "at": "", "h": ["md5"], "now": "2026-03-01 12:00:02"}
+            if between == "sf":
+                mid["sf"] = ["b.txt"]
+            ops = [{"op": "create", "at": "", "h": ["md5"], "now": "2026-03-01 12:00:01"}, {"op": "mv", "src": "a.txt", "dst": "b.txt"}, mid,
+                   {"op": "create", "at": "", "h": fm, "now": "2026-03-01 12:00:03", "dr": True},
+                   {"op": "verify", "at": ""}, {"op": "diff", "at": ""}, {"op": "create", "at": "", "h": ["md5"], "now": "2026-03-01 12:00:04"}]
+            out.append({"profile": "c17-late-dr", "root": "root", "tree": tree, "ops": ops, "c17n": {"hist": "", "old": "a.txt", "new": "b.txt", "dr_index": 3, "skip": [2]}})
+    return out
 
 
 def monitor(sc, res):
@@ -181,7 +199,7 @@ def monitor(sc, res):
 
 
 def run(ctx):
-    scs = nested_rename_scenarios() + [build(ctx.seed * 1000609 + i) for i in range(ctx.scale(150, 2500))]
+    scs = nested_rename_scenarios() + late_dr_scenarios() + [build(ctx.seed * 1000609 + i) for i in range(ctx.scale(150, 2500))]
     return _scn.run_scn(ctx, scs, monitor, witness_ids=("D8", "D12"),
         assumptions=["pairwise distinct contents among recorded files; one history; the new path of a renamed file was never recorded before (DESIGN.md 9)"])
 
